@@ -210,11 +210,12 @@ class CFG:
     def stmts(self):
         return [n for n in self.nodes if isinstance(n, ast.stmt)]
 
-    def guards(self, stmt):
+    def guards(self, stmt, with_kind=False):
         """Structural guard chain of ``stmt``: [(test expr, polarity)] from the
         enclosing ``if``/``while`` headers, innermost last, *plus* early-exit
         guards: a preceding sibling ``if c: <always leaves>`` contributes
-        ``(c, False)``."""
+        ``(c, False)``.  With ``with_kind`` the entries are triples whose third
+        element is ``"enclosing"`` or ``"early"``."""
         out = []
         cur = stmt
         while cur in self.parent:
@@ -225,15 +226,16 @@ class CFG:
                 if sib is cur:
                     break
                 if isinstance(sib, ast.If) and self._always_leaves(sib.body) and not sib.orelse:
-                    out.append((sib.test, False))
+                    out.append((sib.test, False, "early"))
                 elif isinstance(sib, ast.If) and sib.orelse and self._always_leaves(sib.orelse) and not self._always_leaves(sib.body):
-                    out.append((sib.test, True))
+                    out.append((sib.test, True, "early"))
             if par is None:
                 break
             if isinstance(par, (ast.If, ast.While)) and fld in ("body", "orelse"):
-                out.append((par.test, True if fld == "body" else False))
+                out.append((par.test, True if fld == "body" else False, "enclosing"))
             cur = par
-        return list(reversed(out))
+        out = list(reversed(out))
+        return out if with_kind else [(t, p) for t, p, _k in out]
 
     def _siblings(self, stmt, par, fld):
         if par is None:
